@@ -64,6 +64,28 @@ def _build_h09(ctx, mode="trace"):
             hooked += 1
     if hooked != 2:
         ctx["infra"]("cannot hook strings.Compare / bytes.Compare in %s (std sources differ from what the overlay expects)" % goroot)
+    # the js/wasm binding itself (wasm/main.go, package main, imports syscall/js) is compiled natively as a sub-package of
+    # the harness against a stand-in syscall/js, so that its own window loops and argument handling are traced too
+    wm_ok = False
+    if not ctx.get("no_wasmmain"):
+        try:
+            text = open(os.path.join(repo, "wasm", "main.go")).read()
+            text2 = _re.sub(r"(?m)^//go:build js && wasm\s*$", "", text, count=1)
+            text2 = _re.sub(r"(?m)^package main\s*$", "package wasmmain", text2, count=1)
+            jsdir = os.path.join(goroot, "src", "syscall", "js")
+            if text2 != text and "package wasmmain" in text2 and os.path.isdir(jsdir):
+                open(os.path.join(ov, "wasmmain_main.go"), "w").write(text2)
+                open(os.path.join(ov, "wasmmain_export.go"), "w").write(
+                    "package wasmmain\n\n// VerifMain runs the binding's main (registers the exported functions, then blocks).\nfunc VerifMain() { main() }\n")
+                repl[os.path.join(moddir, "wasmmain", "main.go")] = os.path.join(ov, "wasmmain_main.go")
+                repl[os.path.join(moddir, "wasmmain", "zz_export.go")] = os.path.join(ov, "wasmmain_export.go")
+                shutil.copy(os.path.join(moddir, "fakejs", "js.go.txt"), os.path.join(ov, "fakejs_js.go"))
+                open(os.path.join(ov, "fakejs_func.go"), "w").write("package js\n")
+                repl[os.path.join(jsdir, "js.go")] = os.path.join(ov, "fakejs_js.go")
+                repl[os.path.join(jsdir, "func.go")] = os.path.join(ov, "fakejs_func.go")
+                wm_ok = True
+        except OSError:
+            wm_ok = False
     # the shared part/recorder helpers of the main harness join the package through the overlay as well: nothing is
     # written into the source directory, so any number of checks can build at the same time
     shutil.copy(os.path.join(root, "h", "common_test.go"), os.path.join(ov, "zz_common_test.go"))
@@ -71,7 +93,7 @@ def _build_h09(ctx, mode="trace"):
     _json.dump({"Replace": repl}, open(os.path.join(ov, "overlay.json"), "w"))
     out = os.path.join(work, "h09.%s.test" % mode)
     env = dict(ctx["env"])
-    cmd = ["./build.sh", out, os.path.join(ov, "overlay.json"), mode]
+    cmd = ["./build.sh", out, os.path.join(ov, "overlay.json"), mode + ("" if wm_ok else ":nowasmmain")]
     if repo != "/repo":
         src = open(os.path.join(moddir, "go.mod")).read().replace("=> /repo", "=> " + repo)
         mf = os.path.join(work, "h09.go.mod")
@@ -79,6 +101,12 @@ def _build_h09(ctx, mode="trace"):
         shutil.copy(os.path.join(moddir, "go.sum"), os.path.join(work, "h09.go.sum"))
         cmd.append("-modfile=" + mf)
     rc, o = ctx["run"](cmd, moddir, env, 1800, os.path.join(work, "build.log"))
+    if rc != 0 and wm_ok:
+        # the binding did not compile against the stand-in syscall/js (it uses more of the API than is modelled):
+        # build without that part rather than giving up on the whole property; the evidence says so
+        ctx["no_wasmmain"] = True
+        ctx["wasmmain_error"] = o[-1500:]
+        return _build_h09(ctx, mode)
     if rc != 0:
         ctx["infra"]("instrumented build failed", o)
     if mode == "fuzz":
@@ -235,6 +263,8 @@ def execute(ctx):
                 break
         if fz:
             extra["native_fuzz"] = fz
+    if ctx.get("wasmmain_error"):
+        extra["wasm_main_not_traced"] = "wasm/main.go did not compile against the stand-in syscall/js; its exported functions were not traced in this run: " + ctx["wasmmain_error"][-600:]
     return {"failed": failed, "extra_cov": extra, "nshards": max_shards}
 
 
